@@ -174,6 +174,43 @@ pub proof fn lemma_reaches_frame(o: &Pager, n: &Pager, cur: u64, key: Seq<u8>, l
     }
 }
 
+/// the descent from `cur` for the key passes through page `x` within `h` levels
+pub open spec fn visits(p: &Pager, cur: u64, key: Seq<u8>, x: u64, h: nat) -> bool
+    decreases h
+{
+    cur == x || (h > 0 && pg_kind_ok(pg(p, cur)) && pg(p, cur)[4] == 1 && (exists|pos: int| is_lb(int_seps(pg(p, cur)), key, pos))
+                 && visits(p, int_child(pg(p, cur), lb_pos(int_seps(pg(p, cur)), key)), key, x, (h - 1) as nat))
+}
+/// if the descent passes through internal page `cur`, it passes through the child it chooses there
+pub proof fn lemma_visits_extend(p: &Pager, root: u64, key: Seq<u8>, cur: u64, h: nat, pos: int)
+    requires visits(p, root, key, cur, h), pg_kind_ok(pg(p, cur)), pg(p, cur)[4] == 1, is_lb(int_seps(pg(p, cur)), key, pos),
+    ensures visits(p, root, key, int_child(pg(p, cur), pos), h + 1),
+    decreases h
+{
+    lemma_lb_unique(int_seps(pg(p, cur)), key, pos, lb_pos(int_seps(pg(p, cur)), key));
+    let child = int_child(pg(p, cur), pos);
+    if root == cur {
+        assert(visits(p, child, key, child, 0nat));
+        assert(visits(p, root, key, child, 1nat));
+        if h > 0 { lemma_visits_mono(p, root, key, child, 1, h + 1); }
+    } else {
+        lemma_visits_extend(p, int_child(pg(p, root), lb_pos(int_seps(pg(p, root)), key)), key, cur, (h - 1) as nat, pos);
+    }
+}
+pub proof fn lemma_visits_mono(p: &Pager, cur: u64, key: Seq<u8>, x: u64, h: nat, h2: nat)
+    requires visits(p, cur, key, x, h), h <= h2,
+    ensures visits(p, cur, key, x, h2),
+    decreases h
+{
+    if cur != x { lemma_visits_mono(p, int_child(pg(p, cur), lb_pos(int_seps(pg(p, cur)), key)), key, x, (h - 1) as nat, (h2 - 1) as nat); }
+}
+/// C18.btree.frame — every ALLOCATED page whose stored content differs between `o` and `n` is one of the pages of
+/// the recorded descent (pages that were free in `o` may have been allocated and written)
+pub open spec fn frame_path(o: &Pager, n: &Pager, path: Seq<PathEntry>) -> bool {
+    forall|x: u64| live(o, x) && #[trigger] pg(n, x) != pg(o, x) ==> exists|k: int| 0 <= k < path.len() && path[k].page.0 == x
+}
+pub open spec fn live_kept(o: &Pager, n: &Pager) -> bool { forall|x: u64| live(o, x) ==> #[trigger] live(n, x) }
+
 impl BTree {
 // C26.tree.cursor_lower_bound — the cursor a lookup/scan starts from is a faithful copy of a well-formed
 // leaf of the store, and it stands past the end of its leaf only when the leaf chain has ended (empty and
@@ -713,6 +750,8 @@ impl BTree {
 //@| ensures r is Ok && old(path)@.len() == 0 ==> new_root_ok(old(pager), final(pager), final(self).root.0, left_id.0, sep_key@, right_id.0),
 //@|     r is Ok && old(path)@.len() > 0 ==> (parent_insert_ok(old(pager), final(pager), old(path)@.last().page.0, old(path)@.last().child_pos as int, sep_key@, right_id.0) && final(self).root == old(self).root && final(path)@ == old(path)@.drop_last())
 //@|         || internal_full(old(pager), old(path)@.last().page.0, sep_key@),
+//@|     // C18.btree.frame (whatever the outcome): only pages of the recorded descent, or pages that were free, were written
+//@|     frame_path(old(pager), final(pager), old(path)@), live_kept(old(pager), final(pager)),
 //@| decreases old(path)@.len(),
 //@prewrite "keys.push(k.to_vec());" => "keys.push(v_slice_to_vec(k));"
 //@preregex "(\w+)\[(\w+)\]\.clone\(\)" => "v_bytes_clone(&\1[\2])"
@@ -790,6 +829,8 @@ impl BTree {
 //@|     assert(internal_split_ok(o, pager, pp, r2, child_pos as int, sep_key@, right_id.0, promote@));
 //@|     // the rest of the recorded descent is untouched by this split, and it went to the page just split
 //@|     lemma_path_frame(o, pager, path@);
+//@|     assert(live_kept(o, pager));
+//@|     assert(forall|x: u64| live(o, x) && x != pp ==> #[trigger] pg(pager, x) == pg(o, x));
 //@|     assert(path_leads_to(pager, path@, self.root.0, pp)) by {
 //@|         let m = path@.len() as int;
 //@|         assert(old(path)@[m] == parent);
@@ -817,6 +858,10 @@ impl BTree {
 //@| ensures r is Ok ==> (exists|l: u64| #[trigger] leaf_full(old(pager), l, key@))
 //@|         || (final(self).root == old(self).root && exists|l: u64, i: int, h: nat| #[trigger] inserted_at(old(pager), final(pager), l, i, key@, payload) && #[trigger] reaches(old(pager), old(self).root.0, key@, l, h)),
 //@|     r is Err ==> (exists|l: u64| #[trigger] leaf_full(old(pager), l, key@)) || at_most_one_changed(old(pager), final(pager)),
+//@|     // C18.btree.frame (whatever the outcome): every allocated page whose content changed lies on the descent from this
+//@|     // tree's root for the key; everything else that was written had been free; nothing was freed
+//@|     forall|x: u64| live(old(pager), x) && #[trigger] pg(final(pager), x) != pg(old(pager), x) ==> exists|h: nat| visits(old(pager), old(self).root.0, key@, x, h),
+//@|     live_kept(old(pager), final(pager)),
 //@preregex "(?s)\(0\.\.page\.cell_count\(\)\)\s*\.map\(\|i\| \{.*?\}\)\s*\.collect\(\);" => "v_collect_leaf_entries(&page);"
 //@prewrite "entries.partition_point(|(k, _)| k.as_slice() < key)" => "v_partition_point_lt(&entries, key)"
 //@prewrite "(key.to_vec(), payload)" => "(v_slice_to_vec(key), payload)"
@@ -832,6 +877,8 @@ impl BTree {
 //@|     forall|k: int| 0 <= k < path@.len() ==> rank((#[trigger] path@[k]).page.0) > rank(cur.0),
 //@|     path_leads_to(old(pager), path@, self.root.0, cur.0), *self == *old(self),
 //@|     forall|l: u64, h: nat| reaches(old(pager), cur.0, key@, l, h) ==> #[trigger] reaches(old(pager), self.root.0, key@, l, h + depth),
+//@|     visits(old(pager), self.root.0, key@, cur.0, depth),
+//@|     forall|k: int| 0 <= k < path@.len() ==> visits(old(pager), self.root.0, key@, (#[trigger] path@[k]).page.0, depth),
 //@| decreases rank(cur.0),
 //@proof before 1 "=return Ok(());"
 //@| assert(inserted_at(old(pager), pager, cur.0, idx as int, key@, payload));
@@ -847,6 +894,11 @@ impl BTree {
 //@|         lemma_reaches_step(old(pager), cur.0, key@, child_pos as int, l, h);
 //@|         assert(reaches(old(pager), self.root.0, key@, l, (h + 1) + depth));
 //@|     }
+//@|     lemma_visits_extend(old(pager), self.root.0, key@, cur.0, depth, child_pos as int);
+//@|     assert forall|k: int| 0 <= k < path@.len() implies visits(old(pager), self.root.0, key@, (#[trigger] path@[k]).page.0, depth + 1) by {
+//@|         lemma_visits_mono(old(pager), self.root.0, key@, path@[k].page.0, depth, depth + 1);
+//@|     }
+//@|     lemma_visits_mono(old(pager), self.root.0, key@, cur.0, depth, depth + 1);
 //@|     depth = depth + 1;
 //@| }
 //@proof before 1 "let pos = " raw
